@@ -4,6 +4,7 @@ import (
 	"bytes"
 	"context"
 	"encoding/json"
+	"errors"
 	"io"
 	"log/slog"
 	"runtime"
@@ -227,7 +228,7 @@ func appendJsonMarshal(buf *[]byte, v any) {
 	bb := bytes.Buffer{}
 	enc := json.NewEncoder(&bb)
 	enc.SetEscapeHTML(false)
-	if err := enc.Encode(v); err != nil {
+	if err := safeJsonEncode(enc, v); err != nil {
 		*buf = append(*buf, '"')
 		if u, ok := err.(interface{ Unwrap() error }); ok {
 			appendJsonString(buf, u.Unwrap().Error())
@@ -239,6 +240,16 @@ func appendJsonMarshal(buf *[]byte, v any) {
 	}
 	bs := bb.Bytes()
 	*buf = append(*buf, bs[:len(bs)-1]...)
+}
+
+// safeJsonEncode recovers a panic raised by a MarshalJSON or MarshalText method of v (encoding/json re-panics them).
+func safeJsonEncode(enc *json.Encoder, v any) (err error) {
+	defer func() {
+		if r := recover(); r != nil {
+			err = errors.New(panicText(v, r))
+		}
+	}()
+	return enc.Encode(v)
 }
 
 func appendJsonSource(buf *[]byte, pc uintptr) {
